@@ -102,7 +102,7 @@ ROWS = {'orders': [{'amount': 25.0, 'item': 'Dinner'}, {'amount': 12.0, 'item': 
 
 
 def runs(tier):
-    return 240 if tier == 'quick' else 12000
+    return 240 if tier == 'quick' else 9000
 
 
 # ----------------------------------------------------------------------------- generation
